@@ -60,17 +60,22 @@ func must(err error) {
 }
 
 func run(r *report.Run, shard, nshards int, replayFile string) {
-	w := world.New(world.Config{Stakes: world.StakesOf(1_000_000), Height: 101})
+	w := world.New(world.Config{Stakes: world.StakesOf(1_000_000, 1_000_000, 1_000_000), Users: []string{"adm", "U1"}, Height: 101})
 	must(w.StdChain(w.Root, chainRefs[0]))
-	must(w.AddChain(w.Root, chainRefs[1], 56, 1))
+	// part 2 runs on a fork with a second chain, part 3 on a fork with live items
+	idRoot := world.Fork(w.Root)
+	must(w.AddChain(idRoot, chainRefs[1], 56, 1))
 
-	r.Rule = "part 1: per action type (SubmitLogicCall, UpdateValset, CompassHandover, UploadUserSmartContract, UploadSmartContract, skyway batch) the full Cartesian product of per-field alphabets over the values handed to the bridge contract on delivery (plus turnstone id where the scheme hashes it) is evaluated on the real QueuedSignedMessage.GetBytesToSign (after the Marshal/UnmarshalInterface round trip the queue store performs) resp. NewInternalOutgingTxBatch/GetCheckpoint; tuple -> signing bytes must be injective on the whole product (hash-set collision check, evaluations = tuples, distinct = distinct signing bytes). part 2: BFS over Put / Replace / Remove / Replace-of-removed-id / Replace-of-foreign-id through ConsensusKeeper.PutMessageInQueue and DeleteJob on the four EVM queue types of two chains; every freshly allocated id > every id ever allocated, ids of all queues pairwise distinct and equal to the reference sets (states/transitions in coverage.id_states / id_transitions)"
+	r.Rule = "part 1: per action type (SubmitLogicCall, UpdateValset, CompassHandover, UploadUserSmartContract, UploadSmartContract, skyway batch) the full Cartesian product of per-field alphabets over the values handed to the bridge contract on delivery (plus turnstone id where the scheme hashes it) is evaluated on the real QueuedSignedMessage.GetBytesToSign (after the Marshal/UnmarshalInterface round trip the queue store performs) resp. NewInternalOutgingTxBatch/GetCheckpoint; tuple -> signing bytes must be injective on the whole product (hash-set collision check, evaluations = tuples, distinct = distinct signing bytes). part 2: BFS over Put / Replace / Remove / Replace-of-removed-id / Replace-of-foreign-id through ConsensusKeeper.PutMessageInQueue and DeleteJob on the four EVM queue types of two chains; every freshly allocated id > every id ever allocated, ids of all queues pairwise distinct and equal to the reference sets (states/transitions in coverage.id_states / id_transitions). part 3 (views): BFS over Sign / Estimate x3 + election + fee attachment / ReassignTo (real Queue.ReassignValidator) / ReassignOrphaned (real keeper path) / Replace / Remove / Enqueue (scheduler job) / ReplaceCompass (ActivateChainReferenceID, new deployment id) / Confirm / EstimateBatch x3 + skyway end-blocker, from a state with an open batch, a SubmitLogicCall and an UpdateValset, on the application's own keepers; the signing queries (QueuedMessagesForSigning per validator, MessagesInQueue, LastPendingBatchRequestByAddr per validator, BatchRequestByNonce) are polled before and after every operation and must return the reference bytes of each item as it now stands; after every operation a validator that never signs submits, on throw-away forks, really signed MsgAddMessagesSignatures / MsgConfirmBatch txs over the reference bytes (must be accepted) and over the reference with one delivered field changed - relayer (the previous one after a reassignment), deployment id, message id / batch nonce, gas estimate, payload / valset id / amount, fees, deadline / timeout - (must be rejected)"
 	r.Assumptions = []string{
 		"'delivered' values are the arguments VerifyAgainstTX packs for the compass call of each action (eth_txable.go) and the submit_batch arguments for a batch; turnstone id is added where the present scheme hashes it (SubmitLogicCall, UpdateValset, UploadUserSmartContract, batch; not CompassHandover)",
 		"domains are at the level of the delivered value: 20-byte addresses (not hex spellings), bytes32 turnstone ids; fee payers are raw account bytes of 20 and 32 bytes (32-byte values that differ only in their first / only in their last 12 bytes, and one that ends in a 20-byte payer), pairwise distinct after the left-padding to bytes32 that VerifyAgainstTX applies (asserted at start-up), gas estimate and fees over elected/computed values (>= 1, Fees non-nil) - 0 / nil mean 'not yet elected' and collide with the pigeon defaults 300000 / 100000 by design; both defaults are in the alphabets",
 		"UploadSmartContract is a plain contract-creation transaction: no compass call, no signature is handed to any contract. Only bytecode and message id are required to influence the bytes; Abi, ConstructorInput (appended to the creation code, compared byte-for-byte by VerifyAgainstTX) and Retries are NOT covered by the signing bytes and are excluded",
 		"address-typed values carried as hex strings (contract, deployer, validators, forward-call targets, relayer) reach the hashers and VerifyAgainstTX only through common.HexToAddress, so their delivered domain is 20 bytes; SubmitLogicCall.ContractAddress ([]byte) is read by neither side",
 		"not delivered, therefore excluded: SubmitLogicCall.Abi/ContractAddress/ExecutionRequirements/Retries, UploadUserSmartContract.BlockHeight/Id/Retries, CompassHandover.Id, Message.ChainReferenceID/CompassAddr/Assignee/AssignedAtBlockHeight, message id and turnstone id for CompassHandover, gas estimate for SubmitLogicCall/UploadUserSmartContract, batch PalomaBlockCreated/ChainReferenceID/Assignee and transfer id/sender/bridge tax",
+		"views: the reference bytes of an item are computed by this check from the item's current field values (read as fields from the stored item, re-assembled into fresh structs, hashed by the real hashers which part 1 shows to be injective). For a queue message the deployment id is the message's own stored TurnstoneID field (a compass replacement does not rewrite queued messages; their bytes stay bound to the deployment they were created for, and that is what AddSignature verifies). For a batch the ACCEPTED bytes must be the checkpoint under the chain's CURRENT deployment id",
+		"views, weaker reading for what the batch queries publish: the tree does not re-issue the stored BytesToSign of an open batch when the compass is replaced (only at the next estimate election), so after a replacement the published checkpoint is still the one bound to the previous deployment id while ConfirmBatch accepts only the current one (validators that sign what is published are refused until the batch is re-estimated or times out; no signature is collected for the wrong deployment). The published checkpoint is therefore compared with the reference for the deployment id at its last (re)issue, and polls of a checkpoint that is stale in this sense are counted (views_info_batch_checkpoint_polled_while_bound_to_previous_deployment), not judged - same reading as C06",
+		"views: probes are signed by the last validator, which never signs or confirms through an operation (so a rejection is never a duplicate-signature rejection); the in-memory state of the keepers is shared by all explored branches, which is intended (a query-side memo must not change what is handed out)",
 		"replace (PutOptions.MsgIDToReplace) keeps the id of the replaced message by design: it must return exactly that id, allocate nothing, and fail for an id that is not live in that very queue",
 		"BatchQueue (separate counter consensus-batch-queue-counter-) is instantiated by no module registered on this tree (no caller of WithBatch); only the plain Queue is explored",
 		"BFS nodes do not retain their forked context (memory): hash and invariant are evaluated on the real forked state right after the operation; a node that is expanded gets its state rebuilt by re-executing its state-changing calls on a fresh fork of the root and must hash to the recorded value (harness panic otherwise)",
@@ -79,7 +84,7 @@ func run(r *report.Run, shard, nshards int, replayFile string) {
 
 	if replayFile != "" {
 		if shard == 0 {
-			doReplay(r, w, replayFile)
+			doReplay(r, w, idRoot, replayFile)
 		}
 		return
 	}
@@ -95,7 +100,7 @@ func run(r *report.Run, shard, nshards int, replayFile string) {
 	acts := actions(w.App.AppCodec(), r.Thorough())
 	var total, distinct int64
 	for i, a := range acts {
-		if i%nshards != shard || only == "ids" {
+		if i%nshards != shard || only == "ids" || only == "views" {
 			continue
 		}
 		n, d := checkInjective(r, a)
@@ -104,7 +109,7 @@ func run(r *report.Run, shard, nshards int, replayFile string) {
 		r.Extra["alphabet_sizes_"+a.Name] = fieldSizes(a)
 		r.Extra["tuples_"+a.Name] = float64(n)
 	}
-	if shard == 0 && only != "ids" {
+	if shard == 0 && only != "ids" && only != "views" {
 		// informational (see Assumptions): the constructor input of a plain compass
 		// deployment is not covered by the signing bytes.
 		r.Extra["info_UploadSmartContract_bytes_ignore_constructor_input"] = uscIgnoresConstructorInput(w.App.AppCodec())
@@ -122,8 +127,21 @@ func run(r *report.Run, shard, nshards int, replayFile string) {
 		return
 	}
 
+	// ---- part 3 (before part 2: it is the smaller search)
+	if only != "ids" {
+		ve := newViewEnv(w, r, w.Root)
+		vspec := ve.spec(shard, nshards)
+		vres := explore.Run(r, vspec)
+		ve.export(r, vres, shard, vspec)
+		r.Evaluations += ve.askedChecked + ve.probes
+		r.DistinctN += vres.States
+	}
+	if only == "views" {
+		return
+	}
+
 	// ---- part 2
-	e := newIDEnv(w, r.Thorough())
+	e := newIDEnv(w, idRoot, r.Thorough())
 	spec := e.spec(r, shard, nshards)
 	debug.SetGCPercent(200)
 	res := explore.Run(r, spec)
@@ -724,6 +742,7 @@ type queueDef struct {
 
 type idEnv struct {
 	w        *world.World
+	root     sdk.Context
 	qs       []queueDef
 	thorough bool
 	last     *explore.Node // node whose rebuilt context is still held
@@ -731,8 +750,8 @@ type idEnv struct {
 	fresh, replaced, refused, removed, rebuilt int64
 }
 
-func newIDEnv(w *world.World, thorough bool) *idEnv {
-	e := &idEnv{w: w, thorough: thorough}
+func newIDEnv(w *world.World, root sdk.Context, thorough bool) *idEnv {
+	e := &idEnv{w: w, root: root, thorough: thorough}
 	for ci, ref := range chainRefs {
 		ref := ref
 		mk := func(sub string) string {
@@ -766,7 +785,7 @@ func newIDEnv(w *world.World, thorough bool) *idEnv {
 func (e *idEnv) spec(r *report.Run, shard, nshards int) explore.Spec {
 	g0 := &ghost{Live: make([][]uint64, len(e.qs))}
 	spec := explore.Spec{
-		Name: "ids", Init: []*explore.Node{{Ctx: e.w.Root, Ghost: g0}}, Ops: e.ops, Hash: e.hash, Invariant: e.invariant,
+		Name: "ids", Init: []*explore.Node{{Ctx: e.root, Ghost: g0}}, Ops: e.ops, Hash: e.hash, Invariant: e.invariant,
 		MaxDepth: 6, Deadline: r.Deadline(140*time.Second, 25*time.Minute),
 		ShardDepth: 3, Shard: shard, NShards: nshards,
 	}
@@ -802,13 +821,13 @@ func (e *idEnv) settle(ctx *sdk.Context, g *ghost) {
 	g.inv = e.realInvariant(n)
 	g.hash = e.realHash(n)
 	g.light = true
-	*ctx = e.w.Root
+	*ctx = e.root
 }
 
 func (e *idEnv) materialise(n *explore.Node) {
 	if e.last != nil && e.last != n {
 		if lg := e.last.Ghost.(*ghost); lg.hash != "" {
-			e.last.Ctx, lg.light = e.w.Root, true
+			e.last.Ctx, lg.light = e.root, true
 		}
 	}
 	e.last = n
@@ -816,7 +835,7 @@ func (e *idEnv) materialise(n *explore.Node) {
 	if !g.light {
 		return
 	}
-	ctx := world.Fork(e.w.Root)
+	ctx := world.Fork(e.root)
 	for _, o := range g.path {
 		var err error
 		switch o.K {
@@ -1048,7 +1067,7 @@ func (e *idEnv) ops(n *explore.Node) []explore.Op {
 // ===========================================================================
 // replay
 
-func doReplay(r *report.Run, w *world.World, file string) {
+func doReplay(r *report.Run, w *world.World, idRoot sdk.Context, file string) {
 	var v report.Violation
 	b, err := os.ReadFile(file)
 	if err == nil {
@@ -1073,8 +1092,11 @@ func doReplay(r *report.Run, w *world.World, file string) {
 		for _, s := range p.([]interface{}) {
 			path = append(path, s.(string))
 		}
-		e := newIDEnv(w, r.Thorough())
-		if f := explore.Replay(e.spec(r, 0, 1), path); f != nil {
+		spec := newIDEnv(w, idRoot, r.Thorough()).spec(r, 0, 1)
+		if m["scenario"] == "views" {
+			spec = newViewEnv(w, r, w.Root).spec(0, 1)
+		}
+		if f := explore.Replay(spec, path); f != nil {
 			r.Violate(f.Signature, f.Message, v.Replay)
 		}
 		r.Evaluations, r.DistinctN = int64(len(path)), 2
